@@ -1066,4 +1066,9 @@ v("converter-from-other-attribute", [(PARSER, '                "type", _get_type
 v("P-converter-through-local", [(PARSER, '            kwargs.setdefault(\n                "type", _get_type_from_annotation(parameter.annotation)\n            )\n', '            arg_type = _get_type_from_annotation(parameter.annotation)\n            kwargs.setdefault("type", arg_type)\n')], {"C17": "ok", "C16": "ok"})
 v("positional-dest-dashed", [(PARSER, "            name_or_flags = [parameter.name]\n", '            name_or_flags = [parameter.name.replace("_", "-")]\n')], {"C16": "R16.5", "C17": "R17.3"})
 
+v("parser-reads-arguments-from-files", [(SESS, '            "prog": "",\n', '            "prog": "",\n            "fromfile_prefix_chars": "@",\n')], {"C17": "R17.12", "C18": "R18.6"})
+v("parser-exit-on-error-off", [(SESS, '            "prog": "",\n', '            "prog": "",\n            "exit_on_error": False,\n')], {"C18": "R18.6"})
+v("subparser-argument-default-suppress", [(PARSER, "        super().__init__(**kwargs)\n        self._flags", '        kwargs.setdefault("argument_default", SUPPRESS)\n        super().__init__(**kwargs)\n        self._flags')], {"C17": "R17.12"})
+v("P-parser-allow-abbrev-spelled-out", [(SESS, '            "prog": "",\n', '            "prog": "",\n            "allow_abbrev": True,\n')], {"C17": "ok", "C18": "ok"})
+
 VARIANTS = V
